@@ -33,6 +33,29 @@ def gen_history(rng, tier, force=None):
             out.append(("state",))
         return out
 
+    if rng.random() < 0.15:
+        # two identical hashed leaves, then removal of one (direct, or inside a batch)
+        fam = HX.gen_shared_family(rng)
+        if mode != "direct" and rng.random() < 0.5:
+            for w in fam:
+                HX.apply_model(model, w)
+            ops.append(("batch", fam, None))
+            ops.extend(probes(False))
+        else:
+            split = rng.randint(1, len(fam) - 1)
+            for w in fam[:split]:
+                HX.apply_model(model, w)
+                ops.append(w)
+            rest = fam[split:]
+            if mode != "direct" and rng.random() < 0.5:
+                for w in rest:
+                    HX.apply_model(model, w)
+                ops.append(("batch", rest, None))
+            else:
+                for w in rest:
+                    HX.apply_model(model, w)
+                    ops.append(w)
+            ops.extend(probes(False))
     i = 0
     while i < nw:
         batched = mode == "batched" or (mode == "mixed" and rng.random() < 0.4)
